@@ -680,7 +680,7 @@ class StmtMixin:
             so = self.field_sort(name, cls)
             k = self.heap_key(name, cls)
             a = z3.FreshConst(z3.ArraySort(z3.IntSort(), so.z3()), "H_" + k)
-            self._heap_wf(a, so, st.top, into=st.pc)
+            self.arr_bound[a.get_id()] = st.top
             st.heap[k] = a
 
     def check_frame(self, head, st, declared, what):
